@@ -248,6 +248,24 @@ Definition end_base (l1 : clist) (index : N) : res (N * N) :=
            else do (_, b) <- get_node_at l1 (index - 1); Ok b);
   Ok (e, b).
 
+(** The three ways add_all_at attaches the copy chain [hd..tl] (on the union heap [h]); result: the new
+    head and tail of list1 and the heap. *)
+Definition attach_between (h : heap) (head1 tail1 hd tl e b : N) : res (N * N * heap) :=
+  if e =? 0 then
+    do h1 <- set_next h tail1 hd;
+    do h2 <- set_prev h1 hd tail1;
+    Ok (head1, tl, h2)
+  else if b =? 0 then
+    do h1 <- set_prev h head1 tl;
+    do h2 <- set_next h1 tl head1;
+    Ok (hd, tail1, h2)
+  else
+    do h1 <- set_prev h hd b;
+    do h2 <- set_next h1 b hd;
+    do h3 <- set_next h2 tl e;
+    do h4 <- set_prev h3 e tl;
+    Ok (head1, tail1, h4).
+
 Definition cl_add_all_at (l1 l2 : clist) (index : N) (a : alloc_st) : res (stat * clist * alloc_st) :=
   if l_size l2 =? 0 then Ok (CC_OK, l1, a) else
   if g_list_add_all_at_range index (l_size l1) then Ok (CC_ERR_OUT_OF_RANGE, l1, a) else
@@ -258,21 +276,8 @@ Definition cl_add_all_at (l1 l2 : clist) (index : N) (a : alloc_st) : res (stat 
   | Some (hd, tl, hx) =>
       let l1m := upd l1 (l_size l1) (l_head l1) (l_tail l1) (hx ++ l_heap l1) in
       do (e, b) <- end_base l1m index;
-      let h := l_heap l1m in
-      if e =? 0 then
-        do h1 <- set_next h (l_tail l1) hd;
-        do h2 <- set_prev h1 hd (l_tail l1);
-        Ok (CC_OK, upd l1 (l_size l1 + l_size l2) (l_head l1) tl h2, a1)
-      else if b =? 0 then
-        do h1 <- set_prev h (l_head l1) tl;
-        do h2 <- set_next h1 tl (l_head l1);
-        Ok (CC_OK, upd l1 (l_size l1 + l_size l2) hd (l_tail l1) h2, a1)
-      else
-        do h1 <- set_prev h hd b;
-        do h2 <- set_next h1 b hd;
-        do h3 <- set_next h2 tl e;
-        do h4 <- set_prev h3 e tl;
-        Ok (CC_OK, upd l1 (l_size l1 + l_size l2) (l_head l1) (l_tail l1) h4, a1)
+      do (hd', tl', h') <- attach_between (l_heap l1m) (l_head l1) (l_tail l1) hd tl e b;
+      Ok (CC_OK, upd l1 (l_size l1 + l_size l2) hd' tl' h', a1)
   end.
 
 Definition cl_add_all (l1 l2 : clist) (a : alloc_st) : res (stat * clist * alloc_st) :=
@@ -281,23 +286,25 @@ Definition cl_add_all (l1 l2 : clist) (a : alloc_st) : res (stat * clist * alloc
 (* --------------------------------------------------------------------------- splice *)
 Definition emptied (l : clist) : clist := upd l 0 0 0 [].
 
-(** splice_between on the union heap [h]. *)
+(** The pointer writes of splice_between (on the union heap [h]); result: new head, tail, heap. *)
+Definition splice_links (h : heap) (head1 tail1 hd tl left right : N) : res (N * N * heap) :=
+  if left =? 0 then
+    do h1 <- set_prev h head1 tl;
+    do h2 <- set_next h1 tl head1;
+    Ok (hd, tail1, h2)
+  else if right =? 0 then
+    do h1 <- set_next h tail1 hd;
+    do h2 <- set_prev h1 hd tail1;
+    Ok (head1, tl, h2)
+  else
+    do h1 <- set_next h left hd;
+    do h2 <- set_prev h1 hd left;
+    do h3 <- set_prev h2 right tl;
+    do h4 <- set_next h3 tl right;
+    Ok (head1, tail1, h4).
+
 Definition splice_between (l1 l2 : clist) (h : heap) (left right : N) : res (clist * clist) :=
-  do r <- (if left =? 0 then
-      do h1 <- set_prev h (l_head l1) (l_tail l2);
-      do h2 <- set_next h1 (l_tail l2) (l_head l1);
-      Ok (l_head l2, l_tail l1, h2)
-    else if right =? 0 then
-      do h1 <- set_next h (l_tail l1) (l_head l2);
-      do h2 <- set_prev h1 (l_head l2) (l_tail l1);
-      Ok (l_head l1, l_tail l2, h2)
-    else
-      do h1 <- set_next h left (l_head l2);
-      do h2 <- set_prev h1 (l_head l2) left;
-      do h3 <- set_prev h2 right (l_tail l2);
-      do h4 <- set_next h3 (l_tail l2) right;
-      Ok (l_head l1, l_tail l1, h4));
-  let '(hd, tl, h') := r in
+  do (hd, tl, h') <- splice_links h (l_head l1) (l_tail l1) (l_head l2) (l_tail l2) left right;
   Ok (upd l1 (l_size l1 + l_size l2) hd tl h', emptied l2).
 
 Definition cl_splice_at (l1 l2 : clist) (index : N) : res (stat * clist * clist) :=
@@ -525,12 +532,12 @@ Definition merge (cmp : N -> N -> comparison) (h : heap) (left right l_size r_si
 Fixpoint split (fuel : nat) (cmp : N -> N -> comparison) (l : clist) (b size : N) : res (N * clist) :=
   if g_list_split_base size then Ok (b, l) else
   match fuel with O => Fault OutOfFuel | S f =>
-    let l_size := size / 2 in
-    let r_size := size / 2 + size mod 2 in
-    do center <- walk_next (l_heap l) b (N.to_nat l_size);
-    do (l_head1, l1) <- split f cmp l b l_size;
-    do (r_head1, l2) <- split f cmp l1 center r_size;
-    do (lf, rt, h) <- merge cmp (l_heap l2) l_head1 r_head1 l_size r_size;
+    let lsz := size / 2 in
+    let rsz := size / 2 + size mod 2 in
+    do center <- walk_next (l_heap l) b (N.to_nat lsz);
+    do (l_head1, l1) <- split f cmp l b lsz;
+    do (r_head1, l2) <- split f cmp l1 center rsz;
+    do (lf, rt, h) <- merge cmp (l_heap l2) l_head1 r_head1 lsz rsz;
     Ok (lf, upd l2 (l_size l2) lf rt h)
   end.
 Definition cl_sort_in_place (cmp : N -> N -> comparison) (l : clist) : res clist :=
@@ -754,6 +761,8 @@ Fixpoint remove_first_eq (x : N) (l : list N) : option (list N) :=
 Fixpoint find_index (f : N -> bool) (l : list N) (i : N) : option N :=
   match l with [] => None | y :: t => if f y then Some i else find_index f t (i + 1) end.
 Definition replace_nth (i x : N) (l : list N) : list N := firstnN i l ++ x :: skipnN (i + 1) l.
+(** [getN] behind the range test, so that the extracted code never converts a huge index to [nat]. *)
+Definition nth_in (l : list N) (i : N) : option N := if lenN l <=? i then None else getN l i.
 
 Definition spec_one (l src : list N) (o : lop) (fl : bool) : lout * list N * list N :=
   let err st := (LOut st [], l, src) in
@@ -764,17 +773,17 @@ Definition spec_one (l src : list N) (o : lop) (fl : bool) : lout * list N * lis
                   if fl then err CC_ERR_ALLOC else (LOut CC_OK [], insert_at i [x] l, src)
   | ORemove x => match remove_first_eq x l with
                  | Some l' => (LOut CC_OK [x], l', src) | None => err CC_ERR_VALUE_NOT_FOUND end
-  | ORemoveAt i => match getN l i with
+  | ORemoveAt i => match nth_in l i with
                    | Some v => (LOut CC_OK [v], remove_nth i l, src) | None => err CC_ERR_OUT_OF_RANGE end
   | ORemoveFirst => match l with v :: t => (LOut CC_OK [v], t, src) | [] => err CC_ERR_VALUE_NOT_FOUND end
   | ORemoveLast => match rev l with v :: t => (LOut CC_OK [v], rev t, src) | [] => err CC_ERR_VALUE_NOT_FOUND end
   | ORemoveAll => match l with [] => err CC_ERR_VALUE_NOT_FOUND | _ => (LOut CC_OK [], [], src) end
   | ORemoveAllCb => match l with [] => err CC_ERR_VALUE_NOT_FOUND | _ => (LOut CC_OK l, [], src) end
-  | OReplaceAt x i => match getN l i with
+  | OReplaceAt x i => match nth_in l i with
                       | Some v => (LOut CC_OK [v], replace_nth i x l, src) | None => err CC_ERR_OUT_OF_RANGE end
   | OGetFirst => match l with v :: _ => (LOut CC_OK [v], l, src) | [] => err CC_ERR_VALUE_NOT_FOUND end
   | OGetLast => match rev l with v :: _ => (LOut CC_OK [v], l, src) | [] => err CC_ERR_VALUE_NOT_FOUND end
-  | OGetAt i => match getN l i with Some v => (LOut CC_OK [v], l, src) | None => err CC_ERR_OUT_OF_RANGE end
+  | OGetAt i => match nth_in l i with Some v => (LOut CC_OK [v], l, src) | None => err CC_ERR_OUT_OF_RANGE end
   | OIndexOf x => match find_index (fun y => is_eq (cmp y x)) l 0 with
                   | Some i => (LOut CC_OK [i], l, src) | None => err CC_ERR_OUT_OF_RANGE end
   | OContains x => (LOut CC_OK [lenN (filter (fun y => y =? x) l)], l, src)
